@@ -68,7 +68,7 @@ func genCOS(prop string, legs []string) func(seed uint64, run int, tier string) 
 			sc.Netconf = r.IntN(2) == 0
 			sc.Reopen = r.IntN(3) == 0
 			around := func() int {
-				n := pick(r, 1, sc.ReadSize-1, sc.ReadSize, sc.ReadSize+1, 2*sc.ReadSize+3, between(r, 1, 3000))
+				n := pick(r, 1, sc.ReadSize-1, sc.ReadSize, sc.ReadSize+1, 2*sc.ReadSize+3, between(r, 1, 3000), 1024*between(r, 1, 9), 4096)
 				if n > 20000 {
 					n = 20000
 				}
